@@ -256,7 +256,7 @@ PowCall(x, y) ==
               ELSE Ref("pow(x,y)")
 
 FactCall(x, dbl) ==
-    IF x.neg THEN (IF DCmpAbs(x, DOne) < 0 THEN Open ELSE AnyErr)
+    IF x.neg THEN AnyErr          \* every negative number is outside the domain, also those that truncate to 0 (FACT(-0.5) is #NUM!)
     ELSE LET t == RoundDec(x, 0, "down") IN
          IF ~SmallInt(t) \/ IntVal(t) > 170 THEN Open
          ELSE Near(Dec(FALSE, IF dbl THEN NFact2(IntVal(t)) ELSE NFact(IntVal(t)), 0))
